@@ -71,6 +71,37 @@ DCS = {1: DC1, 2: DC2, 3: DC3}
 NTS = {1: NT1, 2: NT2, 3: NT3}
 
 
+class ML(list):
+    """a list subclass: not traversed (its type is not `list`), a leaf like any other object"""
+
+
+class TS(tuple):
+    """a tuple subclass without `_fields`: a leaf"""
+
+
+def _leaf_obj(n):
+    """leaf catalogue: 0-5 strings; 6-9 unhashable objects; 10-15 hashable objects that look like containers / scalars"""
+    if n <= 5:
+        return f"L{n}"
+    return {6: lambda: ML([1, 2]), 7: lambda: ML(), 8: lambda: collections.Counter("aab"), 9: lambda: ML([ML([3])]),
+            10: lambda: frozenset({1, 2}), 11: lambda: TS((1, 2)), 12: lambda: None, 13: lambda: 2.5, 14: lambda: b"xy",
+            15: lambda: TS(())}[n]()
+
+
+def _leaf_id(obj):
+    """inverse of _leaf_obj on result objects (type checked exactly: a leaf must come back as the same kind of object)"""
+    if isinstance(obj, str) and obj.startswith("L") and obj[1:].isdigit():
+        return int(obj[1:])
+    for n in range(6, 16):
+        ref = _leaf_obj(n)
+        if type(obj) is type(ref) and obj == ref:
+            return n
+    return None
+
+
+HASHABLE_LEAVES = [0, 1, 2, 3, 4, 5, 10, 11, 12, 13, 14, 15]
+
+
 class FakeColl:
     """A minimal dask collection whose token is chosen by the test."""
 
@@ -97,11 +128,11 @@ def build_tree2(spec, mk):
     if t == "coll":
         return mk(spec[1]), spec
     if t == "leaf":
-        return f"L{spec[1]}", spec
-    if t in ("list", "tuple", "iter"):
+        return _leaf_obj(spec[1]), spec
+    if t in ("list", "tuple", "iter", "gen"):
         kids = [build_tree2(s, mk) for s in spec[1]]
         objs = [o for o, _ in kids]
-        obj = objs if t == "list" else tuple(objs) if t == "tuple" else iter(objs)
+        obj = objs if t == "list" else tuple(objs) if t == "tuple" else iter(objs) if t == "iter" else (o for o in objs)
         return obj, [t, [a for _, a in kids]]
     if t == "set":
         kids = [build_tree2(s, mk) for s in spec[1]]
@@ -144,6 +175,8 @@ def enc_tree(spec):
         return [Sym(t), spec[1]]
     if t in ("list", "tuple", "set", "iter"):
         return [Sym(t)] + [enc_tree(s) for s in spec[1]]
+    if t == "gen":          # a generator is an Iterator: "treat iterators like lists"
+        return [Sym("iter")] + [enc_tree(s) for s in spec[1]]
     if t in ("dict", "odict"):
         return [Sym(t)] + [[enc_tree(k), enc_tree(v)] for k, v in spec[1]]
     if t == "dc":
@@ -159,8 +192,9 @@ def canon(obj, val=lambda x: None):
     v = val(obj)
     if v is not None:
         return v
-    if isinstance(obj, str) and obj.startswith("L"):
-        return ["leaf", int(obj[1:])]
+    lid = _leaf_id(obj)
+    if lid is not None:
+        return ["leaf", lid]
     if isinstance(obj, collections.OrderedDict):
         return ["odict", [[canon(k, val), canon(x, val)] for k, x in obj.items()]]
     if type(obj) is dict:
@@ -217,7 +251,7 @@ def model_to_canon(m):
 def _has(spec, kinds):
     if spec[0] in kinds:
         return True
-    if spec[0] in ("list", "tuple", "set", "iter"):
+    if spec[0] in ("list", "tuple", "set", "iter", "gen"):
         return any(_has(s, kinds) for s in spec[1])
     if spec[0] in ("dict", "odict"):
         return any(_has(k, kinds) or _has(v, kinds) for k, v in spec[1])
@@ -233,10 +267,37 @@ def _depth(spec):
     return 1 + max([_depth(k) for k in kids], default=0)
 
 
+def _leaf_branches(ctx, args, pref=""):
+    """which special leaves / iterator shapes the case holds"""
+    def go(s, parent, nsib):
+        t = s[0]
+        if t == "leaf" and s[1] >= 6:
+            ctx.branch(pref + "leaf-object")
+            if s[1] in (6, 7, 9) and parent in ("list", "tuple", "set", "iter", "gen") and nsib == 1:
+                ctx.branch(pref + "list-subclass-leaf-alone-in-container")
+        if t in ("iter", "gen") and all(x[0] == "leaf" for x in s[1]):
+            ctx.branch(pref + "iterator-of-plain-leaves")
+        if t == "gen":
+            ctx.branch(pref + "generator")
+        if t in ("list", "tuple", "set", "iter", "gen"):
+            for x in s[1]:
+                go(x, t, len(s[1]))
+        elif t in ("dict", "odict"):
+            for k, v in s[1]:
+                go(k, t, 0)
+                go(v, t, 0)
+        elif t in ("dc", "nt"):
+            for x in s[2]:
+                go(x, t, 0)
+    for a in args:
+        go(a, "top", len(args))
+
+
 def _branches(ctx, args, pref=""):
     for k in ("set", "dict", "odict", "dc", "nt", "iter", "tuple", "list"):
         if any(_has(a, (k,)) for a in args):
             ctx.branch(pref + k)
+    _leaf_branches(ctx, args, pref)
     d = max([_depth(a) for a in args], default=0)
     ctx.branch(pref + f"depth{min(d, 4)}")
     ids = _coll_ids(args)
@@ -253,7 +314,7 @@ def _coll_ids(args):
     def go(s):
         if s[0] == "coll":
             out.append(s[1])
-        elif s[0] in ("list", "tuple", "set", "iter"):
+        elif s[0] in ("list", "tuple", "set", "iter", "gen"):
             for x in s[1]:
                 go(x)
         elif s[0] in ("dict", "odict"):
@@ -322,7 +383,7 @@ def _spec_result(spec):
         return ["res", 1000 + spec[1]]
     if t == "leaf":
         return ["leaf", spec[1]]
-    if t in ("list", "iter"):
+    if t in ("list", "iter", "gen"):
         return ["list", [_spec_result(s) for s in spec[1]]]
     if t == "tuple":
         return ["tuple", [_spec_result(s) for s in spec[1]]]
@@ -388,6 +449,19 @@ def real_coll(cid, kinds=None):
         import dask.bag as db
         seq = [cid + i for i in range(n % 4 + 1)]
         return db.from_sequence(seq, npartitions=2).map(_inc), [v + 1 for v in seq]
+    if kind == "longbag":
+        # the same long-named steps for every id, different data: the fused names are cut to a common prefix
+        import dask.bag as db
+        from props import _token_util as U
+        seq = [cid + i for i in range(n % 3 + 1)]
+        f, g = U.LONG_MAPS[0], U.LONG_MAPS[1]
+        return db.from_sequence(seq, npartitions=1).map(f).map(g), [g(f(v)) for v in seq]
+    if kind == "longarr":
+        import dask.array as da
+        from props import _token_util as U
+        x = np.arange(n % 4 + 2) + cid
+        f, g = U.LONG_MAPS[2], U.LONG_MAPS[3]
+        return da.from_array(x, chunks=-1).map_blocks(f, dtype=x.dtype)[::-1].map_blocks(g, dtype=x.dtype), g(f(x)[::-1])
     import pandas as pd
     from core import import_dd
     dd = import_dd()
@@ -434,10 +508,10 @@ def _expected(spec, table, top=True, traverse=True):
         return ["leaf", spec[1]]
     if not traverse:
         # untouched: canonical form of the original object with lazy collections inside
-        if t == "iter":
+        if t in ("iter", "gen"):
             return ["iter-untouched"]
         return _untouched(spec, table)
-    if t in ("list", "iter"):
+    if t in ("list", "iter", "gen"):
         return ["list", [_expected(s, table, False) for s in spec[1]]]
     if t == "tuple":
         return ["tuple", [_expected(s, table, False) for s in spec[1]]]
@@ -557,7 +631,7 @@ def case_compute(ctx, inp):
 
 def _interleaved(seq):
     """some kind occurs, then another kind, then the first again (what grouping by optimizer reorders)"""
-    fam = {"array": "a", "scalar": "a", "series": "d", "frame": "d"}
+    fam = {"array": "a", "scalar": "a", "longarr": "a", "longbag": "bag", "series": "d", "frame": "d"}
     s = [fam.get(k, k) for k in seq]
     for i in range(len(s)):
         for j in range(i + 1, len(s)):
@@ -620,8 +694,96 @@ def case_persist(ctx, inp):
             if got != want:
                 ctx.fail(f"a collection returned by dask.{which} computes to a different value", sig=sig, observed=got, expected=want)
         ctx.branch(which + ("-with-dataframe" if has_df else ""))
+        if any(k.startswith("long") for k in seq) and len(set(ids)) >= 2:
+            ctx.branch(which + "-long-named-pipelines")
     if _interleaved(seq):
         ctx.branch("persist-interleaved-optimizers")
+
+
+def case_persistn(ctx, inp):
+    """dask.persist / dask.optimize on NESTED arguments: the result is the argument structure with every collection
+    replaced by a collection of the same type and metadata that computes to the same value; leaves unchanged,
+    iterators become lists (nothing is touched when the arguments hold no collection)."""
+    import dask
+    import warnings
+    args = inp["args"]
+    ids = sorted(set(_coll_ids(args)))
+    kinds = inp.get("kinds")
+    table = {i: real_coll(i, kinds) for i in ids}
+
+    def lazy(x):
+        if dask.is_dask_collection(x):
+            return ["lazy", type(x).__name__, _meta(x)]
+        if hasattr(x, "__next__"):
+            return ["iter-untouched"]
+        return None
+
+    def want_lazy(spec, top=True):
+        t = spec[0]
+        if t == "coll":
+            return ["lazy", type(table[spec[1]][0]).__name__, _meta(table[spec[1]][0])]
+        if t == "leaf":
+            return ["leaf", spec[1]]
+        if t in ("list", "iter", "gen"):
+            return ["list", [want_lazy(x, False) for x in spec[1]]]
+        if t == "tuple":
+            return ["tuple", [want_lazy(x, False) for x in spec[1]]]
+        if t == "set":
+            out = []
+            for x in (want_lazy(x, False) for x in spec[1]):
+                if x not in out:
+                    out.append(x)
+            return ["set", sorted(out, key=repr)]
+        if t in ("dict", "odict"):
+            out = []
+            for k, v in ((want_lazy(k, False), want_lazy(v, False)) for k, v in spec[1]):
+                for q in out:
+                    if q[0] == k:
+                        q[1] = v
+                        break
+                else:
+                    out.append([k, v])
+            return [t, out]
+        return [t, len(spec[2]), [want_lazy(x, False) for x in spec[2]]]
+    for which in inp.get("ops", ["persist", "optimize"]):
+        built2 = [build_tree2(a, lambda i: table[i][0]) for a in args]
+        objs = [o for o, _ in built2]
+        aspec = [a for _, a in built2]
+        with warnings.catch_warnings():
+            warnings.simplefilter("ignore")
+            try:
+                if which == "persist":
+                    outs = dask.persist(*objs, scheduler="sync", optimize_graph=inp.get("optimize_graph", True))
+                else:
+                    outs = dask.optimize(*objs)
+            except Exception as e:
+                ctx.fail(f"dask.{which} on nested arguments raised {type(e).__name__}: {str(e)[:120]}", observed=type(e).__name__)
+                continue
+        if not ids:
+            got = ["tuple", [canon(o, lazy) for o in outs]]
+            want = ["tuple", [_untouched(a, table) for a in aspec]]
+            ctx.branch(which + "-nested-no-collections")
+        else:
+            got = ["tuple", [canon(o, lazy) for o in outs]]
+            want = ["tuple", [want_lazy(a) for a in aspec]]
+        if got != want:
+            ctx.fail(f"dask.{which}(*args) is not args with every collection replaced by a collection of the same type and metadata",
+                     observed=got, expected=want)
+            continue
+        if ids:
+            with warnings.catch_warnings():
+                warnings.simplefilter("ignore")
+                try:
+                    vals = dask.compute(*outs, scheduler="sync")
+                except Exception as e:
+                    ctx.fail(f"the structure returned by dask.{which} cannot be computed: {type(e).__name__}", observed=str(e)[:200])
+                    continue
+            gotv = ["tuple", [_canon_result(o) for o in vals]]
+            wantv = ["tuple", [_expected(a, table, True, True) for a in aspec]]
+            if gotv != wantv:
+                ctx.fail(f"the collections returned by dask.{which} compute to different values", observed=gotv, expected=wantv)
+        ctx.branch(which + "-nested")
+    _branches(ctx, args, "persistn-")
 
 
 def _meta(c):
@@ -752,7 +914,8 @@ def case_sched(ctx, inp):
         ctx.branch("sched-from-config")
 
 
-CASES = {"unpack": case_unpack, "compute": case_compute, "persist": case_persist, "tune": case_tune, "sched": case_sched}
+CASES = {"unpack": case_unpack, "compute": case_compute, "persist": case_persist, "persistn": case_persistn, "tune": case_tune,
+         "sched": case_sched}
 
 
 # ----------------------------------------------------------------------------------------------
@@ -762,8 +925,10 @@ CASES = {"unpack": case_unpack, "compute": case_compute, "persist": case_persist
 def gen_tree(rng, depth, ids, hashable=False, maxdepth=4):
     r = rng.random()
     if depth >= maxdepth or r < 0.3:
-        if rng.random() < 0.7:
+        if rng.random() < 0.65:
             return ["coll", rng.choice(ids)]
+        if rng.random() < 0.3:
+            return ["leaf", rng.choice(HASHABLE_LEAVES[6:]) if hashable else rng.randint(6, 15)]
         return ["leaf", rng.randint(0, 5)]
     if hashable:
         return ["tuple", [gen_tree(rng, depth + 1, ids, True, maxdepth) for _ in range(rng.randint(0, 2))]]
@@ -783,7 +948,14 @@ def gen_tree(rng, depth, ids, hashable=False, maxdepth=4):
     if k == 6:
         return ["nt", 0, [gen_tree(rng, depth + 1, ids, False, maxdepth) for _ in range(rng.randint(1, 3))]]
     if k == 7:
-        return ["iter", [gen_tree(rng, depth + 1, ids, False, maxdepth) for _ in range(n)]]
+        kind = rng.choice(["iter", "iter", "gen"])
+        if rng.random() < 0.35:
+            # an iterator that holds plain leaves only (nothing to substitute inside)
+            return [kind, [["leaf", rng.randint(0, 15)] for _ in range(rng.randint(0, 3))]]
+        return [kind, [gen_tree(rng, depth + 1, ids, False, maxdepth) for _ in range(n)]]
+    if rng.random() < 0.3:
+        # a container whose only element is a leaf object
+        return [rng.choice(["list", "tuple"]), [["leaf", rng.randint(6, 15)]]]
     return ["list", [["coll", rng.choice(ids)] for _ in range(n)]]
 
 
@@ -855,11 +1027,48 @@ def generate(ctx):
         args = [_hashable_fix(gen_tree(rng, 0, ids, maxdepth=3), delayed_ids, rng) for _ in range(rng.randint(1, 4))]
         yield "compute", {"args": args, "kinds": kinds, "traverse": rng.random() < 0.85, "scheduler": sched,
                           "optimize_graph": rng.random() < 0.7}
+    for _ in range(ctx.n(25, 250)):
+        kinds = rng.choice([None, ["delayed", "array", "bag", "scalar"], ["delayed", "array", "bag", "scalar"], ["delayed", "array"]])
+        nk = len(kinds or KINDS)
+        ids = rng.sample(range(2 * nk), rng.randint(0, 3))
+        delayed_ids = [i for i in range(2 * nk) if (kinds or KINDS)[i % nk] == "delayed"]
+        args = [_hashable_fix(gen_tree(rng, 0, ids or [0], maxdepth=3), delayed_ids, rng) for _ in range(rng.randint(1, 3))]
+        if not ids:
+            args = [_strip_colls(a) for a in args]
+        yield "persistn", {"args": args, "kinds": kinds, "optimize_graph": rng.random() < 0.7}
+    for _ in range(ctx.n(10, 100)):
+        # pipelines with the same long-named steps over different data: cut fused names must still differ
+        kinds = rng.choice([["longbag"], ["longarr"], ["longbag", "longarr"], ["longbag", "delayed", "longarr"]])
+        yield "persist", {"ids": rng.sample(range(8), rng.randint(2, 4)), "kinds": kinds,
+                          "scheduler": "sync", "optimize_graph": True}
     for _ in range(ctx.n(8, 80)):
         kinds = rng.choice([None, ["delayed", "array", "bag", "scalar"]])
         nk = len(kinds or KINDS)
         yield "persist", {"ids": [rng.randrange(2 * nk) for _ in range(rng.randint(1, 5))], "kinds": kinds,
                           "scheduler": rng.choice(["sync", "threads"]), "optimize_graph": rng.random() < 0.7}
+
+
+def _strip_colls(spec):
+    """the same structure without collections (they become leaves)"""
+    t = spec[0]
+    if t == "coll":
+        return ["leaf", spec[1] % 6]
+    if t == "leaf":
+        return spec
+    if t in ("dict", "odict"):
+        return [t, _distinct_keys([[_strip_colls(k), _strip_colls(v)] for k, v in spec[1]])]
+    if t in ("dc", "nt"):
+        return [t, spec[1], [_strip_colls(x) for x in spec[2]]]
+    kids = [_strip_colls(x) for x in spec[1]]
+    return [t, _distinct(kids) if t == "set" else kids]
+
+
+def _distinct_keys(items):
+    out = []
+    for k, v in items:
+        if all(k != q[0] for q in out):
+            out.append([k, v])
+    return out
 
 
 def _hashable_fix(spec, delayed_ids, rng):
@@ -878,7 +1087,7 @@ def _hashable_fix(spec, delayed_ids, rng):
         keys = _distinct([fixh(k) for k, _ in spec[1]])
         vals = [v for _, v in spec[1]]
         return [t, [[k, _hashable_fix(v, delayed_ids, rng)] for k, v in zip(keys, vals)]]
-    if t in ("list", "tuple", "iter"):
+    if t in ("list", "tuple", "iter", "gen"):
         return [t, [_hashable_fix(s, delayed_ids, rng) for s in spec[1]]]
     if t in ("dc", "nt"):
         return [t, spec[1], [_hashable_fix(s, delayed_ids, rng) for s in spec[2]]]
